@@ -39,7 +39,11 @@ type c03Round struct {
 	// consumer
 	Style   string `json:"style"`    // "nextpackage" | "until"
 	AbortAt int    `json:"abort_at"` // callback invocation index at which the policy applies (-1 never)
-	Outcome string `json:"outcome"`  // "true" | "eof" | "err"
+	Outcome string `json:"outcome"`  // "true" | "eof" | "err" | "err-wrapping-eof"
+	// LateEOM: the response ends with a real final DONE in a packet without
+	// EOM; the header-only EOM packet only arrives after the consumer has
+	// read the DONE and sent its next request.
+	LateEOM bool `json:"late_eom,omitempty"`
 }
 
 type c03Case struct {
@@ -47,6 +51,10 @@ type c03Case struct {
 }
 
 var errC03Callback = errors.New("c03 callback failure")
+
+// an error that wraps io.EOF is "another error", not the unwrapped io.EOF
+// that means "stop here, I will resume"
+var errC03WrapsEOF = fmt.Errorf("c03 callback failure while scanning: %w", io.EOF)
 
 // c03Expected computes what must be delivered for a round: dumps are not
 // known to the model, kinds and count are.
@@ -93,6 +101,7 @@ func c03Run(c *Ctx, cs c03Case) {
 	defer k.teardown()
 	prevEnd := "start"
 	nontrivial := false
+	var heldEOM []byte
 	for ri, rd := range cs.Rounds {
 		r.Count("rounds", 1)
 		// request
@@ -101,6 +110,15 @@ func c03Run(c *Ctx, cs c03Case) {
 			return
 		}
 		k.tr.TakeWrites()
+		if heldEOM != nil {
+			// the previous response's end-of-message packet arrives only now
+			k.tr.Feed(heldEOM)
+			heldEOM = nil
+			if !awaitIdle(k.tr, 30*time.Second) {
+				r.Inconclusive("round %d: reader did not process the late end-of-message packet", ri)
+				return
+			}
+		}
 		// response
 		var body []byte
 		for _, h := range rd.PkgsHex {
@@ -113,7 +131,12 @@ func c03Run(c *Ctx, cs c03Case) {
 		} else {
 			pkts = c02Packets(body, rd.Cuts, nil, rd.EmptyEOM)
 		}
-		k.tr.Feed(pkts...)
+		if rd.LateEOM && len(pkts) >= 2 {
+			heldEOM = pkts[len(pkts)-1]
+			k.tr.Feed(pkts[:len(pkts)-1]...)
+		} else {
+			k.tr.Feed(pkts...)
+		}
 		if !awaitIdle(k.tr, 30*time.Second) {
 			r.Inconclusive("round %d: the reader did not come back for more input (shape %s)", ri, rd.Shape)
 			return
@@ -178,6 +201,9 @@ func c03Run(c *Ctx, cs c03Case) {
 						case "err":
 							aborted = true
 							return false, errC03Callback
+						case "err-wrapping-eof":
+							aborted = true
+							return false, errC03WrapsEOF
 						}
 					}
 					return kd == "done0", nil
@@ -185,7 +211,11 @@ func c03Run(c *Ctx, cs c03Case) {
 				if err != nil {
 					switch {
 					case aborted:
-						if !errors.Is(err, errC03Callback) {
+						cb := errC03Callback
+						if rd.Outcome == "err-wrapping-eof" {
+							cb = errC03WrapsEOF
+						}
+						if !errors.Is(err, cb) || err == io.EOF {
 							if ctx.Err() != nil && errors.Is(err, context.Canceled) {
 								blocked = "NextPackageUntil(drain)"
 							} else {
@@ -216,6 +246,9 @@ func c03Run(c *Ctx, cs c03Case) {
 		policy := rd.Style
 		if rd.Style == "until" && rd.AbortAt >= 0 && rd.AbortAt < len(want) {
 			policy += "/" + rd.Outcome
+		}
+		if rd.LateEOM {
+			nontrivial = true
 		}
 		endKind := "real-done0"
 		if want[len(want)-1] == "synthetic-done0" {
@@ -295,10 +328,21 @@ func c03Run(c *Ctx, cs c03Case) {
 		prevEnd = endKind
 		r.SetAdd("round_shapes", rd.Shape+"|"+rd.CutClass+"|"+policy)
 	}
+	if heldEOM != nil {
+		k.tr.Feed(heldEOM)
+		if !awaitIdle(k.tr, 30*time.Second) {
+			r.Inconclusive("reader did not process the last late end-of-message packet")
+			return
+		}
+		if left := drainChannel(k.ch, k.ctx); len(left.Dumps) > 0 || len(left.Errs) > 0 {
+			r.Violate("leftover-after-round/late-eom-after-real-final-done", fmt.Sprintf("the end-of-message packet arriving after a real final DONE produced %v / %v", left.Types, left.Errs), cs)
+			return
+		}
+	}
 	if nontrivial && len(cs.Rounds) >= 2 {
 		var key strings.Builder
 		for _, rd := range cs.Rounds {
-			fmt.Fprintf(&key, "%s|%s|%v|%s|%d|%s;", rd.Shape, rd.CutClass, rd.Cuts, rd.Style, rd.AbortAt, rd.Outcome)
+			fmt.Fprintf(&key, "%s|%s|%v|%s|%d|%s|%v;", rd.Shape, rd.CutClass, rd.Cuts, rd.Style, rd.AbortAt, rd.Outcome, rd.LateEOM)
 		}
 		r.Distinct(key.String())
 	}
@@ -487,6 +531,10 @@ func c03GenRound(rnd *rt.Rand, shapes []c03Shape, si int) c03Round {
 		rd.CutClass = "header-only-eom"
 		rd.EmptyEOM = true
 		rd.Cuts = randomCuts(rnd, n, rnd.Range(0, 2))
+		if len(rd.Kinds) > 0 && rd.Kinds[len(rd.Kinds)-1] == "done0" && rnd.Bool() {
+			rd.CutClass = "header-only-eom-arriving-after-next-request"
+			rd.LateEOM = true
+		}
 	default:
 		rd.CutClass = "cut-inside-last-package"
 		lo := 1
@@ -507,7 +555,7 @@ func c03GenRound(rnd *rt.Rand, shapes []c03Shape, si int) c03Round {
 	} else {
 		rd.Style = "until"
 		rd.AbortAt = rnd.Range(-1, len(exp)-1)
-		rd.Outcome = []string{"true", "eof", "err"}[rnd.Intn(3)]
+		rd.Outcome = []string{"true", "eof", "err", "err-wrapping-eof"}[rnd.Intn(4)]
 	}
 	return rd
 }
@@ -548,7 +596,7 @@ func runC03(c *Ctx) {
 	}
 	// every abort point x outcome for every shape (second round follows)
 	for a := range shapes {
-		for _, oc := range []string{"true", "eof", "err"} {
+		for _, oc := range []string{"true", "eof", "err", "err-wrapping-eof"} {
 			for at := 0; at < 8; at++ {
 				rnd := rt.NewRand(c.Seed, fmt.Sprintf("c03/abort/%d/%s/%d", a, oc, at))
 				rd := c03GenRound(rnd, shapes, a)
